@@ -56,6 +56,7 @@ class Resolver:
         self._env: Dict[str, Dict[str, Binding]] = {}
         self._mro: Dict[str, List[ClassInfo]] = {}
         self._busy: Set[Tuple[str, str]] = set()
+        self._busy_expr: Set[Tuple[str, int]] = set()
 
     # ------------------------------------------------------------------ env
     def env(self, mod: Module) -> Dict[str, Binding]:
@@ -437,6 +438,16 @@ class Resolver:
         """Classes an expression may be an instance of (empty = unknown)."""
         if depth > 6:
             return []
+        guard = (fn.key, id(expr))
+        if guard in self._busy_expr:
+            return []  # self-referential definition (x = x.method()): unknown
+        self._busy_expr.add(guard)
+        try:
+            return self._expr_classes(fn, expr, depth)
+        finally:
+            self._busy_expr.discard(guard)
+
+    def _expr_classes(self, fn: FuncInfo, expr: ast.expr, depth: int = 0) -> List[ClassInfo]:
         mod = fn.module
         if isinstance(expr, ast.Await):
             return self.expr_classes(fn, expr.value, depth + 1)
